@@ -241,18 +241,25 @@ def who_calls(F, R, A):
     R.ob("array-set-callers", "callers of Array::set", cs == [VM + "exec_array_index"] and not addr, "callers: %s" % cs)
     g = F.fn(VM + "exec_array_index")
     if R.anchor(VM + "exec_array_index", g):
-        seq = []
-        for x in E.eval_order(H.body_of(g)):
-            if x.get("k") == "if":
-                ct = H.render(x["c"])
-                if ct == "(idx < 0)" and "return" in H.render(x["t"]):
-                    seq.append("neg-guard")
-                if ct == "(idx as usize >= arr.len())" and "return" in H.render(x["t"]):
-                    seq.append("len-guard")
-            if x.get("k") == "mcall" and x["m"] in ("set", "get") and H.render(x["recv"]) == "arr":
-                seq.append(x["m"])
-        R.ob("array-set-callers", "exec_array_index guards 0 <= idx < arr.len() before set/get",
-             seq[:2] == ["neg-guard", "len-guard"] and "set" in seq, "events %s" % seq, F.loc(g))
+        B = A.body(VM + "exec_array_index")
+        calls = sorted(M.call_blocks(B, lambda t: t.get("callee") in ("object::array::Array::set", "object::array::Array::get")))
+        ok, dets = bool(calls), []
+        for bb in calls:
+            t = B.blocks[bb]["term"]
+            cx = P.Ctx(B, F)
+            facts, _ = P.edge_facts(B, cx, bb)
+            facts = P._Facts(facts + A.param_facts(VM + "exec_array_index"), cx)
+            arr_s = B.sym_op(t["args"][0], through_vars="pure")
+            idx_s = B.sym_op(t["args"][1], through_vars="pure")
+            ln = cx.lin(("call", "object::array::Array::len", (arr_s,), ()))
+            # the guard may be written against any spelling of the same array reference: try the atoms the facts mention
+            len_atoms = {a for l, _ in facts for a in l.c if "Array::len(" in a}
+            upper = any(P.prove_ge0(P.Lin({a: 1}).add(cx.lin(idx_s), -1).add(P.Lin(k=1), -1), facts, cx.nonneg) for a in len_atoms)
+            signed = [x for x in M.subterms(idx_s) if x[0] == "cast" and x[1] in P.UNSIGNED and (cx.ty_of(x[2]) in P.SIGNED)]
+            lower = all(P.prove_ge0(cx.lin(x[2]), facts, cx.nonneg) for x in signed)
+            ok = ok and upper and lower
+            dets.append("%s: index < len: %s, index >= 0: %s" % (H.last(t["callee"]), upper, lower))
+        R.ob("array-set-callers", "exec_array_index guards 0 <= idx < arr.len() before set/get", ok and len(calls) >= 2, "; ".join(dets), F.loc(g))
     # constants: STACK_SIZE / MAX_FRAMES / sizes used by the justifications
     for c, lo in (("vm::interpreter::STACK_SIZE", 1), ("vm::interpreter::MAX_FRAMES", 1)):
         v = F.const(c)
